@@ -234,3 +234,14 @@ impl ResourceAllocator {
         }
     }
 }
+
+#[cfg(it4innovations_hyperqueue_verif)]
+impl ResourceAllocator {
+    /// Verification hook: plain copy of the pools and of `free_resources` (see `crate::verif::alloc`).
+    pub fn verif_snapshot(&self) -> crate::verif::alloc::AllocatorSnapshot {
+        crate::verif::alloc::AllocatorSnapshot {
+            pools: self.pools.iter().map(|p| p.verif_snapshot()).collect(),
+            concise: self.free_resources.verif_snapshot(),
+        }
+    }
+}
